@@ -692,7 +692,7 @@ type SFut = Pin<Box<dyn Future<Output = SendRes>>>;
 fn err_name(e: &ntex_mqtt::error::SendPacketError) -> String {
     use ntex_mqtt::error::SendPacketError as E;
     match e {
-        E::Encode(x) => format!("Encode:{x:?}"),
+        E::Encode(_) => "Encode".into(),
         E::PacketIdInUse(_) => "PacketIdInUse".into(),
         E::UnexpectedRelease => "UnexpectedRelease".into(),
         E::StreamingCancelled => "StreamingCancelled".into(),
@@ -1068,6 +1068,8 @@ struct Peer {
     io: IoTest,
     tok_out: Tokenizer,
     raw: bool,
+    /// answers the peer still owes, in the order the packets arrived: (ack type, id)
+    owed: Vec<(&'static str, u16)>,
 }
 
 impl Peer {
@@ -1080,20 +1082,78 @@ impl Peer {
             ctx.emit(Ev::new("out_raw").n(b.len() as i64).x(tok::hex_encode(&b)));
         }
         for t in self.tok_out.feed(&b) {
+            match t.k {
+                "PUBLISH" if t.qos == 1 => self.owed.push(("puback", t.id)),
+                "PUBLISH" if t.qos == 2 => self.owed.push(("pubrec", t.id)),
+                "PUBREL" => self.owed.push(("pubcomp", t.id)),
+                "SUBSCRIBE" => self.owed.push(("suback", t.id)),
+                "UNSUBSCRIBE" => self.owed.push(("unsuback", t.id)),
+                _ => {}
+            }
             ctx.emit(tok_ev("out", &t));
         }
+    }
+
+    fn note_in(&mut self, t: &tok::Tok) {
+        let k = match t.k {
+            "PUBACK" => "puback",
+            "PUBREC" => "pubrec",
+            "PUBCOMP" => "pubcomp",
+            "SUBACK" => "suback",
+            "UNSUBACK" => "unsuback",
+            _ => return,
+        };
+        if let Some(i) = self.owed.iter().position(|(a, id)| *a == k && *id == t.id) {
+            self.owed.remove(i);
+        }
+    }
+
+    /// write the correct answers to the first `n` owed packets (one transport write)
+    fn ack_owed(&mut self, ctx: &Ctx, tok_in: &mut Tokenizer, ver: u8, n: usize) -> usize {
+        let n = n.min(self.owed.len());
+        let mut bytes = Vec::new();
+        for (k, id) in self.owed.drain(..n) {
+            bytes.extend(tok::build(ver, &json!({"t": k, "id": id})));
+        }
+        for t in tok_in.feed(&bytes) {
+            ctx.emit(tok_ev("in", &t));
+        }
+        if n > 0 {
+            self.io.write(&bytes);
+        }
+        n
     }
 }
 
 fn tok_ev(e: &'static str, t: &tok::Tok) -> Ev {
-    Ev::new(e)
-        .k(t.k)
-        .id(i64::from(t.id))
-        .q(i64::from(t.qos))
-        .r(i64::from(t.reason))
-        .n(t.plen as i64)
-        .s(i64::from(t.alias))
-        .x(t.topic.clone())
+    match t.k {
+        // CONNECT: n = keep alive, q = receive max, r = max packet size, s = topic alias max, id = level
+        "CONNECT" => Ev::new(e)
+            .k(t.k)
+            .n(i64::from(t.ka))
+            .q(i64::from(t.props.rm))
+            .r(i64::from(t.props.mps))
+            .s(i64::from(t.props.tam))
+            .id(i64::from(t.level)),
+        // CONNACK: r = reason, q = receive max, n = server keep alive (-1 none), s = topic alias
+        // max, id = max qos (-1 none), x = max packet size
+        "CONNACK" => Ev::new(e)
+            .k(t.k)
+            .r(i64::from(t.reason))
+            .q(i64::from(t.props.rm))
+            .n(i64::from(t.props.ska))
+            .s(i64::from(t.props.tam))
+            .id(i64::from(t.props.mq))
+            .x(t.props.mps.to_string()),
+        _ => Ev::new(e)
+            .k(t.k)
+            .id(i64::from(t.id))
+            .q(i64::from(t.qos))
+            .r(i64::from(t.reason))
+            .n(t.plen as i64)
+            .s(i64::from(t.alias))
+            .x(t.topic.clone()),
+    }
 }
 
 const BIG: usize = 1 << 30;
@@ -1111,6 +1171,7 @@ pub async fn run_conn(ctx: Rc<Ctx>, cmds: Vec<Value>) {
         io: peer_io,
         tok_out: Tokenizer::new(ver),
         raw: ctx.cfg_i("raw", 0) != 0,
+        owed: Vec::new(),
     };
     let mut tok_in = Tokenizer::new(ver);
     let mut peer_keep: Option<IoTest> = None;
@@ -1299,6 +1360,7 @@ pub async fn run_conn(ctx: Rc<Ctx>, cmds: Vec<Value>) {
                     bytes = tok::build(ver_of(p, ver), p);
                 }
                 for t in tok_in.feed(&bytes) {
+                    peer.note_in(&t);
                     ctx.emit(tok_ev("in", &t));
                 }
                 let cuts: Vec<usize> = c
@@ -1355,7 +1417,7 @@ pub async fn run_conn(ctx: Rc<Ctx>, cmds: Vec<Value>) {
                 }
             }
             "release" => {
-                let t = c.get("t").and_then(Value::as_i64).unwrap_or(s + 100);
+                let t = c.get("t").and_then(Value::as_i64).unwrap_or(s + 20);
                 if let Some(r) = snd.receipts.remove(&s) {
                     ctx.emit(Ev::new("release").s(s).n(t));
                     let f: SFut = (r.0)();
@@ -1375,7 +1437,7 @@ pub async fn run_conn(ctx: Rc<Ctx>, cmds: Vec<Value>) {
             }
             "chunk" => {
                 // StreamingPayload::send(n bytes) as its own future slot `t`
-                let t = c.get("t").and_then(Value::as_i64).unwrap_or(s + 200);
+                let t = c.get("t").and_then(Value::as_i64).unwrap_or(s + 40);
                 let n = c.get("n").and_then(Value::as_i64).unwrap_or(1) as usize;
                 let data = Bytes::from(vec![c.get("fill").and_then(Value::as_i64).unwrap_or(0x63) as u8; n]);
                 let f: Option<SFut> = snd.streams.get(&s).map(|st| st(data));
@@ -1466,6 +1528,17 @@ pub async fn run_conn(ctx: Rc<Ctx>, cmds: Vec<Value>) {
                 }
             }
             #[cfg(ntex_mqtt_verif)]
+            "wrb" => {
+                let on = c.get("on").and_then(Value::as_i64).unwrap_or(1) != 0;
+                ctx.emit(Ev::new("ctl").k(if on { "wrb_on" } else { "wrb_off" }).s(-1));
+                let sink = ctx.sink.borrow();
+                match &*sink {
+                    SinkH::V3(sk) => sk.verif_wr_backpressure(on),
+                    SinkH::V5(sk) => sk.verif_wr_backpressure(on),
+                    SinkH::None => {}
+                }
+            }
+            #[cfg(ntex_mqtt_verif)]
             "next_id" => {
                 let n = c.get("n").and_then(Value::as_i64).unwrap_or(0) as u16;
                 let sink = ctx.sink.borrow();
@@ -1474,6 +1547,76 @@ pub async fn run_conn(ctx: Rc<Ctx>, cmds: Vec<Value>) {
                     SinkH::V5(sk) => sk.verif_set_next_id(n),
                     SinkH::None => {}
                 }
+            }
+            "ack" => {
+                // orderly peer: answer the next n owed packets correctly, in one write
+                let n = c.get("n").and_then(Value::as_i64).unwrap_or(1) as usize;
+                if peer_keep.is_none() {
+                    peer.ack_owed(&ctx, &mut tok_in, ver, n);
+                }
+            }
+            "settle" => {
+                // poll every runnable sender, let the orderly peer answer everything, repeat
+                let release = c.get("release").and_then(Value::as_i64).unwrap_or(1) != 0;
+                let mut rounds = 0;
+                for _ in 0..64 {
+                    let mut acted = false;
+                    let mut keys: Vec<i64> = snd
+                        .slots
+                        .iter()
+                        .filter(|(_, sl)| {
+                            sl.fut.is_some()
+                                && (!sl.polled || sl.flag.0.load(std::sync::atomic::Ordering::SeqCst))
+                        })
+                        .map(|(k, _)| *k)
+                        .collect();
+                    keys.sort_unstable();
+                    for k in keys {
+                        poll_slot(&ctx, &mut snd, k);
+                        acted = true;
+                    }
+                    idle().await;
+                    peer.drain(&ctx);
+                    if release {
+                        let mut rk: Vec<i64> = snd.receipts.keys().copied().collect();
+                        rk.sort_unstable();
+                        for k in rk {
+                            let r = snd.receipts.remove(&k).unwrap();
+                            let t = k + 20;
+                            ctx.emit(Ev::new("release").s(k).n(t));
+                            snd.slots.insert(
+                                t,
+                                Slot {
+                                    fut: Some((r.0)()),
+                                    flag: Arc::new(FlagWaker::default()),
+                                    polled: false,
+                                },
+                            );
+                            poll_slot(&ctx, &mut snd, t);
+                            acted = true;
+                        }
+                        idle().await;
+                        peer.drain(&ctx);
+                    }
+                    if peer_keep.is_none() && !peer.owed.is_empty() {
+                        let n = peer.owed.len();
+                        peer.ack_owed(&ctx, &mut tok_in, ver, n);
+                        acted = true;
+                        idle().await;
+                        peer.drain(&ctx);
+                    }
+                    if !acted {
+                        break;
+                    }
+                    rounds += 1;
+                }
+                let mut pending: i64 = 0;
+                for (k, sl) in &snd.slots {
+                    if sl.fut.is_some() && (0..60).contains(k) {
+                        pending |= 1 << k;
+                    }
+                }
+                ctx.emit(Ev::new("settled").s(pending).n(rounds).r(snd.receipts.len() as i64));
             }
             "idle" | "" => {}
             other => panic!("unknown command {other}"),
